@@ -13,6 +13,13 @@ use std::ops::Range;
 use vstd::std_specs::btree::*;
 verus! {
 
+#[verifier::external_body]
+pub struct DateTimeL { _p: u8 }
+impl Copy for DateTimeL {}
+impl Clone for DateTimeL { #[verifier::external_body] fn clone(&self) -> (r: Self) ensures r == *self { unimplemented!() } }
+pub type DateTimeLOpt = Option<DateTimeL>;
+//@cut type kind=type path=src/readers/syslinereader.rs name=SyslineRange
+//@end
 pub type Count = u64;
 pub type FileOffset = u64;
 pub type FileSz = u64;
@@ -55,6 +62,13 @@ impl SyslinesRangeMap {
     { unimplemented!() }
     #[verifier::external_body]
     pub fn contains_key(&self, k: &FileOffset) -> (r: bool) ensures r == self@.contains_key(*k) { unimplemented!() }
+    #[verifier::external_body]
+    pub fn remove(&mut self, range: Range<FileOffset>)
+        ensures
+            forall|x: FileOffset| range.start <= x < range.end ==> !(#[trigger] final(self)@.contains_key(x)),
+            forall|x: FileOffset| !(range.start <= x < range.end) ==> (#[trigger] final(self)@.contains_key(x) <==> old(self)@.contains_key(x))
+                && (old(self)@.contains_key(x) ==> final(self)@[x] == old(self)@[x]),
+    { unimplemented!() }
     #[verifier::external_body]
     pub fn insert(&mut self, range: Range<FileOffset>, v: FileOffset)
         requires range.start < range.end
@@ -119,6 +133,10 @@ pub struct SyslineReader {
     pub syslines_miss: Count,
     pub syslines_count: Count,
     pub syslines_stored_highest: usize,
+    pub dt_first: DateTimeLOpt,
+    pub dt_last: DateTimeLOpt,
+    pub dt_first_prev: DateTimeLOpt,
+    pub dt_last_prev: DateTimeLOpt,
 }
 impl SyslineReader {
     pub open spec fn wf(&self) -> bool {
@@ -130,6 +148,9 @@ impl SyslineReader {
                 && self.syslines@[self.syslines_by_range@[x]].beg() <= x as int <= self.syslines@[self.syslines_by_range@[x]].end()
         // every cached answer is right
         &&& forall|k: FileOffset| #[trigger] self.find_sysline_lru_cache@.contains_key(k) ==> answer_ok(k, self.find_sysline_lru_cache@[k])
+        // stored Syslines do not overlap
+        &&& forall|k1: FileOffset, k2: FileOffset| #[trigger] self.syslines@.contains_key(k1) && #[trigger] self.syslines@.contains_key(k2) && k1 != k2
+                ==> self.syslines@[k1].end() < self.syslines@[k2].beg() || self.syslines@[k2].end() < self.syslines@[k1].beg()
     }
     #[verifier::external_body]
     pub fn charsz(&self) -> (r: usize) ensures r == 1 { unimplemented!() }
@@ -165,6 +186,50 @@ impl SyslineReader {
 //@mutate "let fo_next: FileOffset = (*syslinep).fileoffset_next();" "let fo_next: FileOffset = (*syslinep).fileoffset_end();"
 //@end
 
+    // assumed here (proved in unit STO): disabling the caches empties the LRU cache, enabling never adds to it; neither touches the stores
+    #[verifier::external_body]
+    pub fn LRU_cache_disable(&mut self) -> (r: bool)
+        ensures final(self).find_sysline_lru_cache@.dom() =~= Set::<FileOffset>::empty(),
+            final(self).syslines == old(self).syslines, final(self).syslines_by_range == old(self).syslines_by_range,
+    { unimplemented!() }
+    #[verifier::external_body]
+    pub fn LRU_cache_enable(&mut self) -> (r: bool)
+        ensures final(self).find_sysline_lru_cache@.dom().subset_of(old(self).find_sysline_lru_cache@.dom()),
+            forall|k: FileOffset| #[trigger] final(self).find_sysline_lru_cache@.contains_key(k) ==> final(self).find_sysline_lru_cache@[k] == old(self).find_sysline_lru_cache@[k],
+            final(self).syslines == old(self).syslines, final(self).syslines_by_range == old(self).syslines_by_range,
+    { unimplemented!() }
+
+//@cut fn path=src/readers/syslinereader.rs impl=SyslineReader name=remove_sysline ret=r
+//@replace "pub(crate) fn" "pub fn"
+//@spec
+    requires old(self).wf()
+    ensures
+        // C02 (re-parse after the year of a year-less log is known): the Sysline leaves both stores together and no cached answer
+        // survives that could still hand it out
+        final(self).wf(),
+        final(self).syslines@ == old(self).syslines@.remove(fileoffset),
+        r ==> !final(self).syslines_by_range@.contains_key(fileoffset),
+        r == old(self).syslines@.contains_key(fileoffset),
+//@at_entry
+        proof { broadcast use group_btree_axioms; }
+//@before "self.dt_first = self.dt_first_prev;"
+                proof {
+                    let m0 = old(self).syslines@; let b0 = old(self).syslines_by_range@;
+                    assert forall|x: FileOffset| #[trigger] self.syslines_by_range@.contains_key(x) implies self.syslines@.contains_key(self.syslines_by_range@[x])
+                        && self.syslines@[self.syslines_by_range@[x]].beg() <= x as int <= self.syslines@[self.syslines_by_range@[x]].end() by {
+                        assert(b0.contains_key(x));
+                        let k = b0[x];
+                        if k == fileoffset { assert(m0[k].beg() <= x as int <= m0[k].end()); assert(false); }
+                    }
+                    assert forall|k: FileOffset| #[trigger] self.syslines@.contains_key(k) implies self.syslines_by_range@.contains_key(k) && self.syslines_by_range@[k] == k by {
+                        assert(m0.contains_key(k) && k != fileoffset);
+                        // k is the first byte of another stored Sysline: it is not inside the removed one (it points to itself)
+                        if fo_beg <= k < fo_end1 { assert(b0[k] == k); assert(b0.contains_key(k)); }
+                    }
+                }
+//@mutate "let fo_end1: FileOffset = fo_end + (self.charsz() as FileOffset);" "let fo_end1: FileOffset = fo_end;"
+//@end
+
 //@cut fn path=src/readers/syslinereader.rs impl=SyslineReader name=insert_sysline ret=r
 //@replace "SyslineP::new(sysline)" "Arc::new(sysline)"
 //@replace "self.syslines_count += 1;" "verif_count_inc(&mut self.syslines_count);"
@@ -172,10 +237,9 @@ impl SyslineReader {
 //@spec
     requires
         old(self).wf(), sysline.genuine(), ext_ok(sysline),
-        // two genuine messages that share a byte are the same message: whatever the range map already knows inside the new
-        // message's extent, or under its first byte, belongs to a stored Sysline with the same extent
-        forall|x: FileOffset| #[trigger] old(self).syslines_by_range@.contains_key(x) && (sysline.beg() <= x as int <= sysline.end() || old(self).syslines_by_range@[x] as int == sysline.beg())
-            ==> old(self).syslines@[old(self).syslines_by_range@[x]].beg() == sysline.beg() && old(self).syslines@[old(self).syslines_by_range@[x]].end() == sysline.end(),
+        // two genuine messages that share a byte are the same message: a stored Sysline that overlaps the new one has the same extent
+        forall|k: FileOffset| #[trigger] old(self).syslines@.contains_key(k) && !(old(self).syslines@[k].end() < sysline.beg() || sysline.end() < old(self).syslines@[k].beg())
+            ==> old(self).syslines@[k].beg() == sysline.beg() && old(self).syslines@[k].end() == sysline.end(),
     ensures
         *r == sysline, final(self).wf(), final(self).find_sysline_lru_cache == old(self).find_sysline_lru_cache,
         final(self).syslines@ == old(self).syslines@.insert(sysline.beg() as u64, r),
